@@ -20,6 +20,7 @@ __all__ = [
 ]
 VPK_SIG: Final = 0x55aa1234  #: The first byte of VPK files.
 DIR_ARCH_INDEX: Final = 0x7fff  #: The file index used for the ``_dir`` file.
+MAX_PRELOAD_SIZE: Final = 0xffff  #: The largest amount of data which can be stored inside the directory tree.
 FileName: TypeAlias = Union[str, tuple[str, str], tuple[str, str, str]]
 
 
@@ -225,15 +226,15 @@ class FileInfo:
         # noinspection PyProtectedMember
         prefix = self.vpk._dir_prefix
 
-        if prefix is None:
-            self.start_data = data
-            self.arch_len = 0
-            return
-
         dir_limit = self.vpk.dir_limit
-        if dir_limit is None:
-            # No limit, everything is kept in the directory. (data[None:] would be a second copy.)
+        if prefix is None or dir_limit is None:
+            # Singular VPK or no limit, everything is kept in the directory file.
+            # (data[None:] would be a second copy.)
             dir_limit = len(data)
+            arch_index = None
+
+        # The directory stores the preload size in 16 bits, the excess has to be put after it.
+        dir_limit = min(dir_limit, MAX_PRELOAD_SIZE)
 
         self.start_data = data[:dir_limit]
         arch_data = data[dir_limit:]
